@@ -26,7 +26,16 @@ def run(ctx):
             ("close_lazy", C(nc=3, ns=2, units=2, maxwrite=1, feat='"swrite","close","lazy","readfrom"'), 60, 1, 200 if q else 3000, 3, {}),
             ("close_single", C(nc=1, ns=2, units=2, maxwrite=1, single="TRUE", feat='"swrite","close","blockread"'), 40, 1,
              150 if q else 2000, 1, {"singleplex": True})]
-    return muxprop.run_property(ctx, LEVEL, ASSUME, KEYS, mcs, gens, RULE)
+    return muxprop.run_property(ctx, LEVEL, ASSUME, KEYS, mcs, gens, RULE, extra=wake_race)
+
+
+def wake_race(ctx):
+    import lib
+    res = lib.run_go(ctx, "multiplex", "TestVerifC03WakeRace", timeout=900)
+    lib.collect_go(ctx, res)
+    ctx.log("wake-up race: %d trials, %d violations" % (res["stats"].get("trials", 0), len(res.get("violations", []))))
+    return {"evaluations": res["stats"].get("trials", 0), "distinct_nontrivial": res["distinct_nontrivial"], "samples": res["samples"][:1],
+            "traces": 0, "wake_race_trials": res["stats"].get("trials", 0)}
 
 
 replay = muxprop.replay_file
